@@ -3,6 +3,7 @@ import json
 import os
 import subprocess
 
+import check_c13
 import wire
 from common import *
 
@@ -51,6 +52,10 @@ def run(res, tier):
             t = traces[b["id"]]
             res.violation("tls:" + "+".join(sorted(c.split()[0] for c in b["clauses"])) + f":vers{t['c']['vers']}:resume{t['c']['resume']}",
                           "; ".join(b["clauses"]) + f" (case {t['c']} matcher {t['cfg']})", t)
+    # (iii) the routing decision taken on the hello, in listener-wrapper mode: TLS clients among other connections through one
+    #       wrapper (pooled matching buffers pass from connection to connection); a TLS connection must be recognised as such
+    #       (L8: handed over with its TLS state after termination) and nothing consumed may be handed over (L2)
+    check_c13.add_to(res, tier, ("L2", "L8"), "C07", only_mix="tlsfall")
     res.assumptions += ["ground truth for field extraction is crypto/tls (GetConfigForClient on a server fed the same bytes); the TLA+ text contributes the case space, the sni/alpn decision function and the clauses",
                         "byte-level mutations of hellos beyond truncation and other record types are not generated"]
 
